@@ -278,6 +278,76 @@ func runC02(c *Ctx) {
 		}
 	}
 
+	// ---- error-then-valid histories (serial): a rejected call must leave nothing behind. Sequences mix decryptions that
+	// must fail (tampered C2 / C3 / C1, a ciphertext for another key, truncations) with valid decryptions and with
+	// encryptions whose output the reference opens; every valid call must still succeed, every invalid one still fail
+	{
+		rh := c.Rng("errhist")
+		for h := 0; h < c.Q(40, 1500); h++ {
+			key, other := keys[rh.Intn(len(keys))], keys[rh.Intn(len(keys))]
+			var trace []string
+			for st := 0; st < 10; st++ {
+				msg := rh.Bytes(1 + rh.Intn(70))
+				mode := rh.Intn(2)
+				k := new(big.Int).SetBytes(rh.Bytes(31))
+				k.Add(k, big.NewInt(1))
+				good, ok := ref.EncryptWithK(key.x, key.y, k, msg)
+				if !ok {
+					continue
+				}
+				ct := good.Raw(mode == sm2.C1C2C3)
+				w := map[string]interface{}{"history": append([]string{}, trace...), "d": key.d.Text(16), "mode": mode}
+				var pt []byte
+				var err error
+				switch rh.Intn(5) {
+				case 0, 1: // must fail
+					bad := append([]byte{}, ct...)
+					kind := rh.Pick(0, 1, 2, 3)
+					switch kind {
+					case 0:
+						bad[len(bad)-1-rh.Intn(len(msg))] ^= 0x01 // C2 (C1C3C2) or C3 tail (C1C2C3)
+					case 1:
+						bad[70+rh.Intn(20)] ^= 0x40 // inside C3 (C1C3C2) / C2 or C3
+					case 2:
+						bad = bad[:len(bad)-1]
+					default:
+						if og, ok2 := ref.EncryptWithK(other.x, other.y, k, msg); ok2 && other.d.Cmp(key.d) != 0 {
+							bad = og.Raw(mode == sm2.C1C2C3)
+						}
+					}
+					trace = append(trace, fmt.Sprintf("invalid-decrypt/%d", kind))
+					if pi := mon.Guard(func() { pt, err = sm2.Decrypt(key.priv(), bad, mode) }); pi != nil {
+						rep.Violation("C02/history/panic/"+pi.Func, pi.Value, w)
+					} else if err == nil && !bytes.Equal(bad, ct) {
+						rep.Violation("C02/history/accepts-invalid-ciphertext", fmt.Sprintf("after %v", trace), w)
+					}
+				case 2, 3: // valid decrypt of a reference-made ciphertext
+					trace = append(trace, "valid-decrypt")
+					if pi := mon.Guard(func() { pt, err = sm2.Decrypt(key.priv(), ct, mode) }); pi != nil {
+						rep.Violation("C02/history/panic/"+pi.Func, pi.Value, w)
+					} else if err != nil || !bytes.Equal(pt, msg) {
+						rep.Violation("C02/history/valid-ciphertext-rejected-after-earlier-calls", fmt.Sprintf("after %v: %v", trace, err), w)
+						st = 99
+					}
+				default: // encrypt, opened by the reference
+					trace = append(trace, "encrypt")
+					var out []byte
+					if pi := mon.Guard(func() { out, err = sm2.Encrypt(key.pub(), msg, mon.NewRNG(rh.U64()), mode) }); pi != nil {
+						rep.Violation("C02/history/panic/"+pi.Func, pi.Value, w)
+					} else if err != nil {
+						rep.Violation("C02/history/encrypt-error", err.Error(), w)
+					} else if parts, pe := ref.SplitRaw(out, mode == sm2.C1C2C3); pe != nil {
+						rep.Violation("C02/history/malformed-ciphertext-after-earlier-calls", pe.Error(), w)
+					} else if p2, de := ref.Decrypt(key.d, parts); de != nil || !bytes.Equal(p2, msg) {
+						rep.Violation("C02/history/ciphertext-not-GMT0003.4-after-earlier-calls", fmt.Sprintf("after %v: %v", trace, de), w)
+						st = 99
+					}
+				}
+			}
+			rep.Eval(fmt.Sprintf("history/error-then-valid/steps=%d", len(trace)))
+		}
+	}
+
 	// ---- reference-made ciphertexts opened by gmsm (cross direction), incl. chosen nonces with short coordinates
 	{
 		n := c.Q(150, 3000)
